@@ -62,6 +62,15 @@ def rule_Q1(ctx):
             ctx.ob("Q1", node, "FILE line ends with the BINARY keyword", tail.upper().endswith("BINARY"), tail, inst="FILE:binary", file=CS, qualname="<module>")
 
 
+def _inside_node(n, anc):
+    x = getattr(n, "_parent", None)
+    while x is not None:
+        if x is anc:
+            return True
+        x = getattr(x, "_parent", None)
+    return False
+
+
 def rule_Q2(ctx):
     ge = ctx.fn(CS, "get_nonempty_entry", "Q2")
     prs = [p for p in run_paths(ctx, ge, rule="Q2") if p.end == "return"]
@@ -353,10 +362,40 @@ def rule_Q2(ctx):
             # every return is on the non-empty side
             if not any(isinstance(getattr(_n, "test", _n), ast.AST) and emptiness(pc, getattr(_n, "test", _n), "cue_sheet_files") == (not t) for c, t, _n in p.conds):
                 ok = False
-    ctx.ob("Q2", pc, "text without a FILE line is not a cue sheet (BadCueSheet)", ok, "", inst="no-file")
     rc = return_canons(pc)
-    ok = rc == ["cue_sheet_files[0]"]
-    ctx.ob("Q2", pc, "the first FILE entry is the cue sheet's meaning", ok, f"{rc}", inst="first-file")
+    ok_first = rc == ["cue_sheet_files[0]"]
+    if not ok and not ok_first:
+        # the same kept in a first-seen variable: V = None before the scan; a parsed FILE entry is stored only while V is still None;
+        # V is None after the scan -> BadCueSheet; V is what is returned
+        rets_ = [r_ for r_ in own_nodes(pc) if isinstance(r_, ast.Return) and r_.value is not None]
+        V = rets_[0].value.id if rets_ and all(isinstance(r_.value, ast.Name) for r_ in rets_) and len({r_.value.id for r_ in rets_}) == 1 else None
+        if V is not None:
+            loops_ = [l_ for l_ in own_nodes(pc) if isinstance(l_, (ast.For, ast.While))]
+            defs_ = [a_ for a_ in own_nodes(pc) if isinstance(a_, (ast.Assign, ast.AnnAssign)) and norm(a_.targets[0] if isinstance(a_, ast.Assign) else a_.target) == V]
+            inits_ = [a_ for a_ in defs_ if not any(_inside_node(a_, l_) for l_ in loops_)]
+            sets_ = [a_ for a_ in defs_ if any(_inside_node(a_, l_) for l_ in loops_)]
+            okv = len(inits_) == 1 and isinstance(inits_[0].value, ast.Constant) and inits_[0].value.value is None and len(sets_) == 1
+            if okv:
+                g_ = getattr(sets_[0], "_parent", None)
+                okv = isinstance(g_, ast.If) and sets_[0] in g_.body and norm(g_.test) in (f"{V} is None", f"not {V}") and not g_.orelse
+                # what is stored is what the FILE parser returned for this FILE line
+                src_ = sets_[0].value
+                d2_ = [a_ for a_ in own_nodes(pc) if isinstance(a_, ast.Assign) and isinstance(src_, ast.Name) and any(isinstance(x_, ast.Name) and x_.id == src_.id for t_ in a_.targets for x_ in ast.walk(t_))]
+                okv = okv and len(d2_) == 1 and "CueSheetFileAdapter.parse" in norm(d2_[0].value)
+            n_raise = n_ret = 0
+            for p in prs:
+                facts_ = {c_.replace("~", ""): t_ for c_, t_, _n in p.conds}
+                none_ = facts_.get(f"Is({V},None)")
+                if none_ is None and f"IsNot({V},None)" in facts_:
+                    none_ = not facts_[f"IsNot({V},None)"]
+                if p.end == "raise" and (p.raised or "").endswith("BadCueSheet") and none_ is True:
+                    n_raise += 1
+                if p.end == "return":
+                    n_ret += 1
+                    okv = okv and none_ is False
+            ok = ok_first = bool(okv and n_raise >= 1 and n_ret >= 1)
+    ctx.ob("Q2", pc, "text without a FILE line is not a cue sheet (BadCueSheet)", ok, "", inst="no-file")
+    ctx.ob("Q2", pc, "the first FILE entry is the cue sheet's meaning", ok_first, f"{rc}", inst="first-file")
 
 
 def rule_Q5(ctx):
@@ -604,7 +643,7 @@ def rule_C1(ctx):
         fl = bool(flg & re.I)
         ok = must in pat and fl
         try:
-            rx.parse(pat)
+            rx.parse(pat, flg)
         except Exception:
             ok = False
         ctx.ob("C1", node, f"Roland signature regex {nm} is a valid case-insensitive pattern containing `{must}`", ok, pat[:60], inst=nm, file=ia, qualname="IdAreaAdapter")
